@@ -4,7 +4,7 @@
   Tiers: G = any arithmetic; S = any arithmetic satisfying `FloatSpec` (IEEE contract); E = exact reals.
   `T a = blade·(π/2) + rem` is the total, with the machine's own π/2 (`val qp`).
 -/
-import GeonumModel.Lemmas.AngleSub
+import GeonumModel.Lemmas.AngleStep
 import GeonumModel.Spec.RealWitness
 
 set_option linter.unusedSectionVars false
@@ -96,17 +96,57 @@ theorem add_zero_right {a : Angle F} (ha : a.Inv) (z : Angle F) (hz : z = ⟨zer
     · exfalso; rw [hsum, abs_lt] at hnear; linarith
     · exfalso; rw [hsum] at hbig; linarith
 
-/-- (S/B) associativity of totals, PARTIAL: proved with bound `4·(1e-10 + 1e-15)`; the property states twice the tolerance.
-    Missing: a snap leaves remainder 0, after which the next addition cannot snap again (one snap per bracketing). -/
-theorem add_assoc_total_partial {a b c : Angle F} (ha : a.Inv) (hb : b.Inv) (hc : c.Inv) :
-    |T ((a.geometricAdd b).geometricAdd c) - T (a.geometricAdd (b.geometricAdd c))|
-      < 2 * (val (e10 : F) + 1 / 10 ^ 15) + 2 * (val (e10 : F) + 1 / 10 ^ 15) := by
+/-- (S/B) a bracketing of three summands is off from the sum of the three totals by at most ONE snap (`1e-10`) plus two roundings:
+    if the first sum snapped, its remainder is 0 and the second addition is exact -/
+theorem add3_total_left {a b c : Angle F} (ha : a.Inv) (hb : b.Inv) (hc : c.Inv) :
+    |T ((a.geometricAdd b).geometricAdd c) - (T a + T b + T c)| < val (e10 : F) + 2 / 10 ^ 15 := by
   have h1 := add_total ha hb
-  have h2 := add_total (add_inv ha hb) hc
-  have h3 := add_total hb hc
-  have h4 := add_total ha (add_inv hb hc)
+  have hx := add_inv ha hb
+  have e1 : T (a.geometricAdd b) - (T a + T b) =
+      (val (a.geometricAdd b).rem + (((a.geometricAdd b).blade : ℝ) - ((a.blade + b.blade : ℕ) : ℝ)) * val (qp : F))
+        - (val a.rem + val b.rem) := by unfold T; push_cast; ring
+  rcases geometricAdd_snap_or_exact ha hb with hz | hex
+  · -- snapped: the next addition adds a whole number of quarter turns from the left, exactly
+    have hw := whole_add hc hx.1 hz
+    have hT : T ((a.geometricAdd b).geometricAdd c) = T (a.geometricAdd b) + T c := by
+      unfold T; rw [hw.1, hw.2.2, hz]; push_cast; ring
+    rw [hT]
+    rw [abs_lt] at h1 ⊢
+    have : (0:ℝ) < 1 / 10 ^ 15 := by positivity
+    constructor <;> linarith [h1.1, h1.2]
+  · rw [← e1] at hex
+    have h2 := add_total hx hc
+    rw [abs_lt] at hex h2 ⊢
+    constructor <;> linarith [hex.1, hex.2, h2.1, h2.2]
+
+theorem add3_total_right {a b c : Angle F} (ha : a.Inv) (hb : b.Inv) (hc : c.Inv) :
+    |T (a.geometricAdd (b.geometricAdd c)) - (T a + T b + T c)| < val (e10 : F) + 2 / 10 ^ 15 := by
+  have h1 := add_total hb hc
+  have hy := add_inv hb hc
+  have e1 : T (b.geometricAdd c) - (T b + T c) =
+      (val (b.geometricAdd c).rem + (((b.geometricAdd c).blade : ℝ) - ((b.blade + c.blade : ℕ) : ℝ)) * val (qp : F))
+        - (val b.rem + val c.rem) := by unfold T; push_cast; ring
+  rcases geometricAdd_snap_or_exact hb hc with hz | hex
+  · have hw := add_whole ha hy.1 hz
+    have hT : T (a.geometricAdd (b.geometricAdd c)) = T a + T (b.geometricAdd c) := by
+      unfold T; rw [hw.1, hw.2.2, hz]; push_cast; ring
+    rw [hT]
+    rw [abs_lt] at h1 ⊢
+    have : (0:ℝ) < 1 / 10 ^ 15 := by positivity
+    constructor <;> linarith [h1.1, h1.2]
+  · rw [← e1] at hex
+    have h2 := add_total ha hy
+    rw [abs_lt] at hex h2 ⊢
+    constructor <;> linarith [hex.1, hex.2, h2.1, h2.2]
+
+/-- (S/B) **associativity up to twice the tolerance**: the two bracketings differ in total by less than `2·(1e-10 + 2e-15)` -/
+theorem add_assoc_total {a b c : Angle F} (ha : a.Inv) (hb : b.Inv) (hc : c.Inv) :
+    |T ((a.geometricAdd b).geometricAdd c) - T (a.geometricAdd (b.geometricAdd c))|
+      < 2 * (val (e10 : F) + 2 / 10 ^ 15) := by
+  have h1 := add3_total_left ha hb hc
+  have h2 := add3_total_right ha hb hc
   rw [abs_lt] at *
-  constructor <;> linarith
+  constructor <;> linarith [h1.1, h1.2, h2.1, h2.2]
 
 end S
 
